@@ -3,6 +3,7 @@ import ast
 
 from .. import util
 from ..interp import Interp, Path, exc_value, is_exc, show, strip_sites, subterms, NONE
+from .. import slots
 from ..report import Undecided
 from . import common
 
@@ -189,7 +190,7 @@ def leaves(chk, fns):
                     chk.bad("O10.4", name, "trio.from_thread.run is given %s instead of just the payload" % [show(a) for a in runs[0][2]], node=fi.node, stmt="trio-args")
                     ok = False
                 tok = dict(runs[0][3]).get("trio_token")
-                if tok != ("attr", SELF, "_trio_token"):
+                if tok != ("attr", SELF, slots.trio_token(prog, fi.cls)):
                     chk.bad("O10.5", name, "the payload is run with trio_token=%s instead of the runner's own token (a missing token only works from trio-spawned threads)" % show(tok), node=fi.node, stmt="trio-token")
                     ok = False
         if ok:
